@@ -23,7 +23,8 @@ RULE = ("(add) Images.add / Rpms.add with the architecture swept over the whole 
 ASSUMPTIONS = ["a variant with only a 'src' entry is outside the claim and not generated"]
 FLOORS = {"images-doc": 100, "rpms-doc": 100, "add-arch-sweep": 60}
 
-ARCH_CANDIDATES = sorted(set(gen.RPM_ARCHES) | {"", "SRC", "Src", "X86_64", "x86-64", "x86_64 ", " src", "source", "i387", "none", "NOSRC", "noarch "})
+ARCH_CANDIDATES = sorted(set(gen.RPM_ARCHES) | {"", "SRC", "Src", "X86_64", "x86-64", "x86_64 ", " src", "source", "i387", "none", "NOSRC", "noarch "}
+                         | set(a + "\n" for a in gen.RPM_ARCHES) | {"src\n\n", "\nsrc", "src\r", "x86_64\t", "x86_64\x00"})      # a name followed by a line break is another string
 
 
 def add_case(arch):
